@@ -256,22 +256,23 @@ Theorem C28_whole_step_no_start_effects :
 Proof. exact step_no_start_effects. Qed.
 Print Assumptions C28_whole_step_no_start_effects.
 
-(* WHOLE-PLAN VALIDITY for the sub-fragment [no_start_fragment] (all actions durative, effects only at EndTiming() as
-   unconditional assignments, compiler output of the plain form; Compilers/T2SCompile.v): every sequential plan valid
-   for the compiled problem converts back into a time-triggered plan that satisfies the reference dense-time semantics
-   of the original problem.  Hypotheses besides the fragment: [smp_ok] (the simplifier preserves evaluation), no bounded
-   numeric fluent, epsilon > 0, non-empty duration intervals along the run, positive chosen durations (the last three
-   are shown necessary by the [_refuted] examples above / the zero-duration remark). *)
+(* WHOLE-PLAN VALIDITY for the sub-fragment [end_only_fragment] (instantaneous actions, copied unchanged by the
+   compiler, mixed with durative actions whose effects are all at EndTiming() as unconditional assignments and whose
+   compiled form is plain; Compilers/T2SCompile.v): every sequential plan valid for the compiled problem converts back
+   into a time-triggered plan that satisfies the reference dense-time semantics of the original problem.  Hypotheses
+   besides the fragment: [smp_ok] (the simplifier preserves evaluation), no bounded numeric fluent, epsilon > 0,
+   non-empty duration intervals along the run, positive chosen durations (the [_refuted] examples above show that the
+   second and fourth are necessary; a duration 0 puts start and end at one instant). *)
 Theorem C28_whole_plan_no_start_read :
   forall sc smp (TP : tproblem) (P' : problem) (eps : Qc) (s0 : state) (pi : list (N * list value)) (tpl : tplan),
-    smp_ok sc smp -> no_start_fragment smp TP = true -> bound_invs (tp_base TP) = [] ->
+    smp_ok sc smp -> end_only_fragment smp TP = true -> bound_invs (tp_base TP) = [] ->
     t2s_problem smp TP = Some P' -> zq 0 < eps ->
     valid_plan sc P' s0 pi = true -> back_plan sc TP P' eps (zq 0) s0 pi = Some tpl ->
     nonempty_along sc TP P' s0 pi -> positive_durations tpl ->
     tt_valid sc TP s0 tpl.
 Proof.
   intros sc smp TP P' eps s0 pi tpl OK FR BI CP He.
-  exact (plan_no_start_read sc smp OK TP P' eps FR CP He s0 pi tpl BI).
+  exact (plan_end_only sc smp OK TP P' eps FR CP He s0 pi tpl BI).
 Qed.
 Print Assumptions C28_whole_plan_no_start_read.
 
@@ -300,7 +301,7 @@ Print Assumptions C28_whole_step_nonvacuous.
 
 (* non-vacuity of C28_whole_plan_no_start_read: all hypotheses hold on instance E with the plan [a] *)
 Example C28_whole_plan_no_start_read_nonvacuous :
-  no_start_fragment idsmp exE_TP = true /\ bound_invs (tp_base exE_TP) = [] /\
+  end_only_fragment idsmp exE_TP = true /\ bound_invs (tp_base exE_TP) = [] /\
   t2s_problem idsmp exE_TP = Some (compiled exE_TP) /\ zq 0 < eps100 /\
   valid_plan true (compiled exE_TP) exA_s0 exA_pi = true /\
   back_plan true exE_TP (compiled exE_TP) eps100 (zq 0) exA_s0 exA_pi = Some (converted exE_TP exA_s0 exA_pi) /\
@@ -314,3 +315,62 @@ Proof.
   intros st dt Hin Hd. vm_compute in Hin. destruct Hin as [<-|[]]. cbn in Hd. inversion Hd. reflexivity.
 Qed.
 Print Assumptions C28_whole_plan_no_start_read_nonvacuous.
+
+(* --- F: an instantaneous action (n := 1) mixed with the durative action of instance E; plan: inst, then a *)
+Definition exF_base : problem :=
+  {| p_objs := []; p_ifun := [];
+     p_fluents := [ {| fd_id := 0%N; fd_sig := []; fd_ty := FNum None None |}; {| fd_id := 1%N; fd_sig := []; fd_ty := FBool |} ];
+     p_actions := [ (1%N, {| a_params := []; a_pre := [ENot exg]; a_effs := [mkeff 0 [] (EInt 1) KAssign false] |}) ];
+     p_goals := [ELe (EInt 5) exn]; p_invs := [] |}.
+Definition exF_TP : tproblem := {| tp_base := exF_base; tp_dur := [(0%N, exE_d)]; tp_teffs := []; tp_tgoals := [] |}.
+Definition exF_pi : list (N * list value) := [(1%N, []); (0%N, [])].
+
+Example C28_whole_plan_mixed_nonvacuous :
+  end_only_fragment idsmp exF_TP = true /\ no_start_fragment idsmp exF_TP = false /\
+  bound_invs (tp_base exF_TP) = [] /\ t2s_problem idsmp exF_TP = Some (compiled exF_TP) /\
+  valid_plan true (compiled exF_TP) exA_s0 exF_pi = true /\
+  back_plan true exF_TP (compiled exF_TP) eps100 (zq 0) exA_s0 exF_pi = Some (converted exF_TP exA_s0 exF_pi) /\
+  nonempty_along true exF_TP (compiled exF_TP) exA_s0 exF_pi /\
+  tt_valid_b true exF_TP exA_s0 (converted exF_TP exA_s0 exF_pi) = true.
+Proof.
+  split; [vm_compute; reflexivity|]. split; [vm_compute; reflexivity|]. split; [vm_compute; reflexivity|].
+  split; [vm_compute; reflexivity|]. split; [vm_compute; reflexivity|]. split; [vm_compute; reflexivity|].
+  split; [vm_compute; repeat split; reflexivity | vm_compute; reflexivity].
+Qed.
+Print Assumptions C28_whole_plan_mixed_nonvacuous.
+
+(* ------------------------------------------------------------------ OPEN: start effects that are written but not read.
+   [start_not_read_fragment] (Compilers/T2SCompile.v) is the computable sub-fragment; the three statements below are
+   what remains to be proved for it (nothing here is used by a theorem). *)
+(* (a) evaluation ignores fluent symbols that do not occur *)
+Definition C28_whole_eval_ignores_unmentioned_goal : Prop :=
+  forall sc fs e (I J : interp),
+    no_sym fs e = true ->
+    par J = par I -> var J = var I -> ifun J = ifun I -> objs J = objs I ->
+    (forall f a, memN f fs = false -> fl J f a = fl I f a) ->
+    eval sc e J = eval sc e I.
+
+(* (b) the two-happening step: the compiled step from s_s = the start event, then the end event, applied alone from
+   s_t; the kept conditions hold in s_t and in the intermediate state *)
+Definition C28_whole_step_start_not_read_goal : Prop :=
+  forall sc smp, smp_ok sc smp -> forall (P P' : problem), same_base P P' ->
+  forall d a' args (s_s s_t s_s' : state) (x : src) t1 t2,
+    alias_free d = true -> start_not_read_step smp d a' = true -> a_params a' = d_params d ->
+    state_eq s_t s_s -> spec_step sc P' s_s a' args = Some s_s' ->
+    let bind := zip_params (d_params d) args in
+    let ev t l := {| ev_time := t; ev_src := x; ev_bind := bind; ev_effs := l |} in
+    exists s_mid s_t',
+      ref_apply sc P s_t [ev t1 (start_effs d)] = Some s_mid /\
+      ref_apply sc P s_mid [ev t2 (end_effs d)] = Some s_t' /\ state_eq s_t' s_s' /\
+      (forall ic c, In ic (d_conds d) -> In c (snd ic) ->
+         (is_start0 (ti_lo (fst ic)) && negb (ti_lopen (fst ic)) = true -> holds sc (mk_interp P s_t bind) c = true) /\
+         (is_end0 (ti_hi (fst ic)) = true -> holds sc (mk_interp P s_mid bind) c = true)).
+
+(* (c) the plan-level theorem (same induction as [m_compose_run] with up to two happenings per durative step) *)
+Definition C28_whole_plan_start_not_read_goal : Prop :=
+  forall sc smp (TP : tproblem) (P' : problem) (eps : Qc) (s0 : state) (pi : list (N * list value)) (tpl : tplan),
+    smp_ok sc smp -> start_not_read_fragment smp TP = true -> bound_invs (tp_base TP) = [] ->
+    t2s_problem smp TP = Some P' -> zq 0 < eps ->
+    valid_plan sc P' s0 pi = true -> back_plan sc TP P' eps (zq 0) s0 pi = Some tpl ->
+    nonempty_along sc TP P' s0 pi -> positive_durations tpl ->
+    tt_valid sc TP s0 tpl.
